@@ -106,7 +106,7 @@ def run(ctx):
             cases.append((copy.deepcopy(g), dict(base, runner=r, inputs=inputs, sched_seed=rng.randint(0, 10**6), fresh_rank=True)))
             meta.append(md)
 
-    for _ in range(ctx.n(60, 1500)):
+    for _ in range(ctx.n(160, 1500)):
         g = gen.gen_dag(rng, max_nodes=7, emits=0.6)
         try:
             inputs = gen.make_inputs(rng, g)
